@@ -485,12 +485,40 @@ def c16_universe(g):
     n["bi0"].section = n["s0"]; n["bi1"].section = n["s0"]; n["bi2"].section = n["s2"]
     n["b0"].byte_interval = n["bi0"]; n["b1"].byte_interval = n["bi0"]; n["b2"].byte_interval = n["bi2"]
     n["y0"].module = n["m0"]; n["y1"].module = n["m2"]; n["p0"].module = n["m0"]; n["p1"].module = n["m2"]
+    # further members of the collections of the *other* owners (ir1, m2, s2, bi2), so that a live collection handed to a
+    # bulk operation has several elements
+    for i in (4, 5):
+        n["m%d" % i] = g.Module(name="m%d" % i, uuid=U(70 + i)); n["m%d" % i].ir = n["ir1"]
+        n["s%d" % i] = g.Section(name="s%d" % i, uuid=U(80 + i)); n["s%d" % i].module = n["m2"]
+        n["bi%d" % i] = g.ByteInterval(uuid=U(90 + i), size=8); n["bi%d" % i].section = n["s2"]
+        n["y%d" % i] = g.Symbol(name="y%d" % i, uuid=U(100 + i)); n["y%d" % i].module = n["m2"]
+        n["p%d" % i] = g.ProxyBlock(uuid=U(110 + i)); n["p%d" % i].module = n["m2"]
+        n["b%d" % i] = (g.CodeBlock if i % 2 else g.DataBlock)(uuid=U(120 + i), offset=i, size=1)
+        n["b%d" % i].byte_interval = n["bi2"]
     return n
 
 
 C16_COLLS = {"ir0.modules": ("m", "list"), "m0.sections": ("s", "set"), "m0.symbols": ("y", "set"),
              "m0.proxies": ("p", "set"), "s0.byte_intervals": ("bi", "set"), "bi0.blocks": ("b", "set"),
              "bi0.symexprs": ("k", "dict")}
+
+
+# collections of *other* owners whose live wrapper (not a copy) may be handed to a bulk operation
+C16_LIVE = {"m": "ir1.modules", "s": "m2.sections", "y": "m2.symbols", "p": "m2.proxies", "bi": "s2.byte_intervals",
+            "b": "bi2.blocks"}
+
+
+def c16_iterable(n, names, form, pref):
+    """the argument of a bulk operation in one of the forms a caller may use; returns (argument, snapshot list)"""
+    if form == "live":
+        live = c16_get(n, C16_LIVE[pref])
+        return live, list(live)
+    vals = [n[x] for x in names]
+    if form == "tuple":
+        return tuple(vals), vals
+    if form == "gen":
+        return (v for v in vals), vals
+    return list(vals), vals
 
 
 def c16_get(n, cname):
@@ -575,6 +603,17 @@ def c16_case(g, steps):
             elif op == "update":
                 others = [[n[x] for x in grp] for grp in st[2:]]
                 rr = outcome(lambda: real.update(*others)); mm = outcome(lambda: model.update(*others))
+            elif op in ("update_from", "ior_from"):
+                arg, snap = c16_iterable(n, st[3], st[2], pref)
+                if op == "update_from":
+                    rr = outcome(lambda: real.update(arg)); mm = outcome(lambda: model.update(snap))
+                else:
+                    if st[2] != "live":
+                        arg = set(snap)
+                    def dor(c, o):
+                        c |= o
+                        return None
+                    rr = outcome(lambda: dor(real, arg)); mm = outcome(lambda: dor(model, set(snap)))
             elif op in ("ior", "iand", "isub", "ixor"):
                 other = {n[x] for x in st[2]}
                 def do(c, o=other, op=op):
@@ -641,6 +680,21 @@ def c16_case(g, steps):
                 def ia(c):
                     c += vals
                 rr = outcome(lambda: ia(real)); mm = outcome(lambda: ia(model))
+            elif op in ("extend_from", "iadd_from", "setslice"):
+                arg, snap = c16_iterable(n, st[3], st[2], pref)
+                if len(set(snap)) != len(snap) or any(v in model for v in snap):
+                    continue      # values already in this list: known finding F-C04-1, not explored
+                if op == "extend_from":
+                    rr = outcome(lambda: real.extend(arg)); mm = outcome(lambda: model.extend(snap))
+                elif op == "iadd_from":
+                    def ia2(c, o):
+                        c += o
+                    rr = outcome(lambda: ia2(real, arg)); mm = outcome(lambda: ia2(model, snap))
+                else:
+                    lo, hi = st[4], st[5]
+                    def ss(c, o):
+                        c[lo:hi] = o
+                    rr = outcome(lambda: ss(real, arg)); mm = outcome(lambda: ss(model, snap))
             elif op == "clear":
                 rr = outcome(real.clear); mm = outcome(model.clear)
             elif op == "reverse":
@@ -695,6 +749,11 @@ def c16_case(g, steps):
         if not same(rr, mm, kind):
             errs.append("%s.%s%r: real %r, built-in %r" % (cname, op, tuple(st[2:]), rr, mm))
         resync()
+        for pf_, lname in C16_LIVE.items():
+            lo_ = n[lname.split(".")[0]]
+            for x in list(c16_get(n, lname)):
+                if parent_of_node(g, x) is not lo_:
+                    errs.append("%s still holds an element now owned by %r after %r" % (lname, parent_of_node(g, x), st))
         # contents
         for cn, (pf, kd) in C16_COLLS.items():
             r, m_ = c16_get(n, cn), models[cn]
@@ -739,6 +798,9 @@ def c16_gen(rng):
             return [cname, op, rng.choice(names)]
         if op in ("pop", "clear"):
             return [cname, op]
+        if op == "update" and rng.random() < 0.4:
+            return [cname, rng.choice(["update_from", "ior_from"]), rng.choice(["list", "tuple", "gen", "live", "live"]),
+                    rng.sample(names, rng.randint(0, 3))]
         if op == "update":
             return [cname, op] + [rng.sample(names, rng.randint(0, 2)) for _ in range(rng.randint(0, 2))]
         return [cname, op, rng.sample(names, rng.randint(0, 3))]
@@ -753,6 +815,11 @@ def c16_gen(rng):
             return [cname, op] + ([rng.randint(-3, 3)] if rng.random() < 0.5 else [])
         if op in ("delitem", "getitem"):
             return [cname, op, rng.randint(-3, 3)]
+        if op in ("extend", "iadd") and rng.random() < 0.6:
+            form = rng.choice(["list", "tuple", "gen", "live", "live"])
+            vals = rng.sample(names, rng.randint(0, 3))
+            o2 = rng.choice(["extend_from", "iadd_from", "setslice", "setslice"])
+            return [cname, o2, form, vals] + ([rng.randint(-2, 3), rng.randint(-2, 4)] if o2 == "setslice" else [])
         if op in ("extend", "iadd"):
             return [cname, op, rng.sample(names, rng.randint(0, 2))]
         if op in ("getslice", "delslice"):
